@@ -105,18 +105,24 @@ class AbstractMetric(Metric):
             self.state = f(s, *want)
         self.log.append(('revert', y_true, y_pred))
 
+    def _get_of(self, state):
+        if self.env.mode == 'sym':
+            return Sym(z3.Function('GET', z3.RealSort(), z3.RealSort())(state))
+        # concrete replay: an (injective enough) numeric image of the state term
+        import zlib
+        from fractions import Fraction
+        return Fraction(zlib.crc32(state.sexpr().encode()) % 1000003, 101)
+
     def get(self):
-        return Sym(z3.Function('GET', z3.RealSort(), z3.RealSort())(self.state))
+        return self._get_of(self.state)
 
     def value_after(self, state, y_true, y_pred):
         tag, args = self._enc(y_pred)
         f = z3.Function(f"UPD_{tag}", *([z3.RealSort()] * (2 + len(args))), z3.RealSort())
-        return Sym(z3.Function('GET', z3.RealSort(), z3.RealSort())(f(state, to_real(lift(y_true)), *args)))
+        return self._get_of(f(state, to_real(lift(y_true)), *args))
 
 
 def _abstract_validator(env, cfg):
-    if env.mode != 'sym':
-        return
     m = AbstractMetric(env, cfg['dict_input'], cfg['bigger'])
     s0 = m.state
     loss = guarded(env, 'validate_loss_function', validate_loss_function, m)
@@ -134,8 +140,6 @@ def _plain(y_true, y_pred):
 
 
 def _abstract(env, cfg):
-    if env.mode != 'sym':
-        return
     m = AbstractMetric(env, cfg['dict_input'], cfg['bigger'])
     wrappers = [guarded(env, 'validate_loss_function', validate_loss_function, m) for _ in range(2)]
     s0 = m.state
@@ -158,6 +162,13 @@ def _abstract(env, cfg):
         env.claim('reported_value_unchanged', eq(m.get(), got0))
         env.claim('prediction_dict_unmodified', pred == pred_copy if False else list(pred.keys()) == list(pred_copy.keys()))
     env.canary('sign_not_ignored', eq(val, -sign * m.value_after(s0, y, seen)))
+    # a caller may reuse one prediction dict and overwrite its entries in place between two calls with the same target
+    key = sorted(pred.keys(), key=str)[0]
+    pred[key] = env.real('p_inplace')
+    seen2 = pred if cfg['dict_input'] else pred.get('output', 0)
+    val2 = guarded(env, 'loss_call', w, y, pred)
+    env.claim('value_follows_in_place_change_of_the_prediction_dict', eq(val2, sign * m.value_after(s0, y, seen2)))
+    env.claim('state_restored', m.state.eq(s0))
 
 
 # ---- (b) real river metrics with symbolic running-mean state -----------------------------------
